@@ -57,7 +57,7 @@ IsGC == lastop.op = "gc"
 DeleteRemovesTarget == IsDelete => lastop.n \notin content
 DeleteOnlyTargetWithoutGC == (IsDelete /\ ~g.autogc) => RemovedByDelete = {lastop.n}
 DeleteNeverRemovesLinked ==      \* never a node a surviving node still links to (beyond the named one)
-  IsDelete => \A m \in RemovedByDelete \ {lastop.n} : \A q \in content : ~(IsMan(q) /\ m \in Succ(q))
+  IsDelete => \A m \in RemovedByDelete \ {lastop.n} : \A q \in content : ~Contains(q, m)
 DeleteNeverRemovesTagged == IsDelete => \A m \in RemovedByDelete \ {lastop.n} : m \notin Tagged(pre.tags)
 DeleteKeepsOtherTags == IsDelete => \A r \in Refs : (pre.tags[r] # 0 /\ pre.tags[r] # lastop.n) => tags[r] = pre.tags[r]
 DeleteRemovesItsTags == IsDelete => \A r \in Refs : pre.tags[r] = lastop.n => tags[r] = 0
@@ -66,7 +66,7 @@ DeleteRemovesItsTags == IsDelete => \A r \in Refs : pre.tags[r] = lastop.n => ta
 DeleteCascadeComplete ==
   (IsDelete /\ g.autogc) =>
      \A m \in content : m \in Tagged(tags) \/
-        /\ ~(IsMan(m) /\ Subj(m) # 0 /\ Subj(m) \in RemovedByDelete)
+        /\ ~(IsMan(m) /\ Subj(m) # 0 /\ Subj(m) \in RemovedByDelete /\ \A q \in content : ~Contains(q, m))
         /\ ~((\E q \in RemovedByDelete : IsMan(q) /\ m \in Succ(q)) /\ Pred(content, m) = {})
 \* C09 GC
 GCKeepsReachable == IsGC => (pre.content \cap ReachP(Tagged(pre.tags), {}, pre.content)) \subseteq content
